@@ -10,7 +10,7 @@ for m in "$@"; do
     ORIG-21) p=C04;; ORIG-22) p=C15;;
     ORIG-23) p="C01 C04";; ORIG-24) p=C12;; ORIG-25) p=C20;; ORIG-26) p=C15;; ORIG-27) p=C19;;
     ORIG-28) p=C03;; ORIG-29) p=C05;; ORIG-30) p=C03;; ORIG-31) p=C03;; ORIG-32) p=C08;;
-    ORIG-33) p=C11;; ORIG-34) p=C11;; ORIG-35) p=C13;; ORIG-36) p=C18;;
+    ORIG-33) p=C11;; ORIG-34) p=C11;; ORIG-35) p=C13;; ORIG-36) p=C18;; ORIG-37) p=C02;;
   esac
   VERIF_JOBS=${MJOBS:-8} python3 tools/mutants.py detect $m $p 2>&1 | cut -c1-330
 done
